@@ -49,6 +49,12 @@ def build():
     ensures r is Ok ==> *alg == default_alg(self.key_type), //@C04.signature_algorithm_matches_key_type
         r matches Ok(v) ==> (self.key_type is EcdsaP256 ==> v@.len() == 64) && (self.key_type is EcdsaP384 ==> v@.len() == 96)
             && (self.key_type is EcdsaP521 ==> v@.len() == 132), //@C15.ecdsa_signature_fixed_width,C04.ecdsa_fixed_width
+        // RS256 is RSASSA-PKCS1-v1_5 over SHA-256
+        r matches Ok(v) ==> (*alg is Rs256 ==> rsa_pkcs1_valid(self.inner_key.ident@, 1u8, data@, v@)), //@C15.signature_is_made_with_the_digest_of_the_declared_algorithm,C04.signature_is_made_with_the_digest_of_the_declared_algorithm
+        // an ECDSA signature is made over the digest RFC 7518 gives the declared algorithm (ES256: SHA-256, ES384: SHA-384, ES512: SHA-512),
+        // so that it verifies under that algorithm
+        r matches Ok(v) ==> (es_hash(*alg) matches Some(h) ==> exists|rr: Seq<u8>, ss: Seq<u8>| crate::openssl::ecdsa::ecdsa_valid(self.inner_key.ident@, hash_spec(h, data@), rr, ss)
+            && v@ == crate::openssl::bn::left_pad(rr, ec_size(self.key_type)) + crate::openssl::bn::left_pad(ss, ec_size(self.key_type))), //@C15.signature_is_made_with_the_digest_of_the_declared_algorithm,C04.signature_is_made_with_the_digest_of_the_declared_algorithm
 """)})
     u.verify(K, "KeyPair::sign_ecdsa", "crypto", props=["C15", "C04"], fns={"sign_ecdsa": FnSpec(ret="r", sig="""
     requires self.wf(),
@@ -119,6 +125,11 @@ pub open spec fn default_alg(k: KeyType) -> JwsSignatureAlgorithm {
 pub open spec fn ec_size(k: KeyType) -> int {
     match k { KeyType::EcdsaP256 => 32, KeyType::EcdsaP384 => 48, KeyType::EcdsaP521 => 66, _ => 0 }
 }
+// RFC 7518 section 3.4: the digest each ECDSA algorithm signs
+pub open spec fn es_hash(a: JwsSignatureAlgorithm) -> Option<HashFunction> {
+    match a { JwsSignatureAlgorithm::Es256 => Some(BaseHashFunction::Sha256), JwsSignatureAlgorithm::Es384 => Some(BaseHashFunction::Sha384),
+              JwsSignatureAlgorithm::Es512 => Some(BaseHashFunction::Sha512), _ => None }
+}
 pub open spec fn crv_name(k: KeyType) -> Seq<char> {
     match k { KeyType::EcdsaP256 => "P-256"@, KeyType::EcdsaP384 => "P-384"@, KeyType::EcdsaP521 => "P-521"@, _ => ""@ }
 }
@@ -141,6 +152,8 @@ impl KeyPair {
     pub open spec fn wf(&self) -> bool { self.inner_key.kind@ == kind_of(self.key_type) }
 }
 pub uninterp spec fn hash_spec(h: HashFunction, data: Seq<u8>) -> Seq<u8>;
+// sig is an RSASSA-PKCS1-v1_5 signature of data by the key, over the digest numbered as in MessageDigest (1 = SHA-256)
+pub uninterp spec fn rsa_pkcs1_valid(key: int, digest: u8, data: Seq<u8>, sig: Seq<u8>) -> bool;
 pub proof fn lemma_maps() {}
 impl vstd::std_specs::cmp::PartialEqSpecImpl for JwsSignatureAlgorithm {
     open spec fn obeys_eq_spec() -> bool { true }
@@ -157,7 +170,8 @@ impl std::fmt::Display for KeyType { #[verifier::external_body] fn fmt(&self, f:
 impl std::fmt::Display for JwsSignatureAlgorithm { #[verifier::external_body] fn fmt(&self, f: &mut std::fmt::Formatter) -> std::fmt::Result { unimplemented!() } }
 impl KeyPair {
     #[verifier::external_body]
-    fn sign_rsa(&self, hash_func: &MessageDigest, data: &[u8]) -> Result<Vec<u8>, Error> { unimplemented!() }
+    fn sign_rsa(&self, hash_func: &MessageDigest, data: &[u8]) -> (r: Result<Vec<u8>, Error>)
+        ensures r matches Ok(v) ==> rsa_pkcs1_valid(self.inner_key.ident@, hash_func.id, data@, v@) { unimplemented!() }
     #[verifier::external_body]
     fn sign_eddsa(&self, data: &[u8]) -> Result<Vec<u8>, Error> { unimplemented!() }
     // X: the Ed25519/Ed448 `x` is cut out of a PEM string by offset - outside what a contract on this code can state
